@@ -23,14 +23,19 @@ from typing import Any, Callable, Iterable, Iterator, Optional
 
 from bounded import _c13_oracle as O
 
-RULE = ("exhaustive: every SET of n hits drawn from a small alphabet (all intervals over a 5/6-point position grid "
-        "x 2-3 profiles x 2-3 scores; grids and profile lengths chosen so that overlap == margin, span == 1.5 L, "
-        "length == L/2 and L/3, equal starts, equal scores, nested and chained hits all occur), for every such set "
-        "every permutation of the input list (n <= 3; 6 of 24 for n = 4 in the quick tier), both refinement modes, "
-        "and PYTHONHASHSEED 0..7 in child processes for the n <= 3 sets of one configuration per function; "
-        "thorough adds n = 4 over the full alphabets with all permutations, seeds 0..15 and seeded random sets of "
-        "4-6 hits on random grids.  A case is one (set, configuration, mode); it is non-trivial when at least two "
-        "of its hits interact (share a residue, a profile or a start); distinct = distinct case.")
+RULE = ("exhaustive: every SET of n hits drawn from a small alphabet = all intervals over a 4/5/6-point position grid "
+        "x 2 profiles (3 for filter_results) x 2-3 scores; grids and profile lengths are chosen so that overlap == "
+        "margin, span == 1.5 L, length == L/2 and L/3, equal starts, equal scores, identical coordinates, nested and "
+        "chained hits all occur.  quick: refine_hmmscan_results n<=3 on q0 (6 points, 36,050 sets), q1/q2/q5 (5 points, "
+        "10,700 each), q3 (4 points, 3 scores, 7,806) and n=4 on q4 (4 points, 10,626), both modes; "
+        "hmmer.remove_overlapping n<=3 on h0/h1/h2 (36,050 + 2 x 10,700); filter_results/filter_result_multiple n<=3 on "
+        "f0/f2, n<=4 on f1 (7,806 + 2,324 + 12,950); HMMResult.merge on 450 ordered pairs, remove_incomplete on 3,333 "
+        "lists x thresholds.  For every set EVERY permutation of the input list is run (and the hits delivered as one "
+        "QueryResult each); q0, h1 and f1 (n<=3) are also run in child processes with PYTHONHASHSEED 0..7.  thorough: "
+        "n=4 over the 6-point grids (all permutations for r0s, 6 of 24 elsewhere), three scores for n<=3, seeds 0..15, "
+        "and run.rng-seeded random sets of 4-6 hits over 3 profiles on random grids (12 orderings each).  A case is one "
+        "(set, configuration[, mode]); it is non-trivial when at least two of its hits interact (share a residue, a "
+        "profile or a start); distinct = distinct case.")
 EXHAUSTIVE = {"quick": True, "thorough": False}
 
 GROUPS = [frozenset(O.F_GROUP)]
@@ -741,7 +746,7 @@ def shards(tier: str, seed: int) -> list:
         out += [{"fam": "S", "jobs": jobs, "chunk": i, "of": 4, "seeds": list(range(8))} for i in range(4)]
         out += split("R", "q0", [1, 2, 3], 6, "all")
         out += split("R", "q1", [1, 2, 3], 2, "all") + split("R", "q2", [1, 2, 3], 2, "all")
-        out += split("R", "q3", [1, 2, 3], 2, "all") + split("R", "q4", [4], 3, "some")
+        out += split("R", "q3", [1, 2, 3], 2, "all") + split("R", "q4", [4], 4, "all")
         out += split("R", "q5", [1, 2, 3], 2, "all")
         out += split("H", "h0", [1, 2, 3], 4, "all") + split("H", "h1", [1, 2, 3], 1, "all")
         out += split("H", "h2", [1, 2, 3], 1, "all")
